@@ -140,6 +140,23 @@ pub fn run_model(cfg: &CtxCfg, ops: &[Op]) -> Trace {
                 let f = refmodel::ref_decode(bytes);
                 if proc.dec.is_panic() {
                     st.panics += 1;
+                    // a request the properties say "is answered" must not end in a panic
+                    if matches!(f.verdict, Verdict::Accept { .. }) && f.control && f.rq {
+                        let n = bytes.len();
+                        let mut probe = m.clone();
+                        let demand = probe.on_request(f.cmd, &bytes[11..n - 1]);
+                        let reserved_eid = f.cmd == 0x01 && (bytes[12] == 0x00 || bytes[12] == 0xFF);
+                        if demand != RespDemand::Unspecified && !reserved_eid {
+                            let prop = demand_prop(f.cmd);
+                            match f.cmd {
+                                0x03 => st.identity_queries[0] += 1,
+                                0x04 => st.identity_queries[1] += 1,
+                                0x05 => st.identity_queries[2] += 1,
+                                _ => {}
+                            }
+                            out.push(Report { prop, sig: format!("{}:{}:panicked_instead_of_answering", prop, cmd_name(f.cmd)), detail: format!("step {}: request {} must be answered but process_packet panicked: {}", i, hex(bytes), proc.dec.brief()) });
+                        }
+                    }
                     resync(&mut m, &ctx, &mut st);
                     continue;
                 }
@@ -160,14 +177,29 @@ pub fn run_model(cfg: &CtxCfg, ops: &[Op]) -> Trace {
                             st.assignments.push(eid);
                             st.steps_after_last_assignment = 0;
                         } else {
-                            if opb > 3 {
-                                // reserved operation values: whether they assign is not specified
-                                resync(&mut m, &ctx, &mut st);
-                            }
+                            // Reset EID, Set Discovered Flag and operation bytes that are
+                            // neither Set (0x00) nor Force (0x01) never change the EID
                             if eid != cur {
                                 st.unapplied_seteid_other += 1;
                             }
                         }
+                    }
+                    // statistics come from the request (not from what the library did with it)
+                    match cmd {
+                        0x01 | 0x02 => st.eid_reports_checked += 1,
+                        0x03 => st.identity_queries[0] += 1,
+                        0x04 => st.identity_queries[1] += 1,
+                        0x05 => st.identity_queries[2] += 1,
+                        0x06 => {
+                            if demand != RespDemand::Unspecified {
+                                st.vendor_queries += 1;
+                                let fmt = cfg.vendors[data[0] as usize].0 as usize;
+                                if fmt < 2 {
+                                    st.vendor_formats_seen[fmt] = true;
+                                }
+                            }
+                        }
+                        _ => {}
                     }
                     match proc.resp {
                         Some(rn) if rn <= *cap as usize && rn <= buf.len() => {
@@ -175,7 +207,7 @@ pub fn run_model(cfg: &CtxCfg, ops: &[Op]) -> Trace {
                             // C12: framing and correlation, for requests whose SMBus
                             // source address and source EID name the same requester
                             let s = bytes[6];
-                            if s < 0x80 && bytes[3] == ((s << 1) | 1) {
+                            if bytes[3] == (((s & 0x7F) << 1) | 1) {
                                 st.frames_checked += 1;
                                 let iid = bytes[9] & 0x1F;
                                 if iid != 0 || s != 0x34 || cfg.addr != 0x23 {
@@ -193,22 +225,6 @@ pub fn run_model(cfg: &CtxCfg, ops: &[Op]) -> Trace {
                                     Len::Ok(l) if l == rn => {}
                                     other => out.push(Report { prop: "C12", sig: "C12:reported_length".into(), detail: format!("step {}: process_packet reported {} response bytes but the length probe on the response gives {:?}", i, rn, other) }),
                                 }
-                            }
-                            match cmd {
-                                0x01 | 0x02 => st.eid_reports_checked += 1,
-                                0x03 => st.identity_queries[0] += 1,
-                                0x04 => st.identity_queries[1] += 1,
-                                0x05 => st.identity_queries[2] += 1,
-                                0x06 => {
-                                    if demand != RespDemand::Unspecified {
-                                        st.vendor_queries += 1;
-                                        let fmt = cfg.vendors[data[0] as usize].0 as usize;
-                                        if fmt < 2 {
-                                            st.vendor_formats_seen[fmt] = true;
-                                        }
-                                    }
-                                }
-                                _ => {}
                             }
                             check_demand(&mut out, i, cmd, bytes, r, &demand);
                         }
